@@ -206,20 +206,62 @@ def runtime_check(prop, tier, seed, groups=None, extra_args=()):
                 rec = dict(kind="profile-dependence", what="the same seeded workload produced different observations under different build profiles",
                            case=cid, group=g, tier=tier, seed=seed, digests={k: v[0] for k, v in d.items()}, profile=",".join(sorted(d)), replay_kind="digest",
                            observed=str({k: v[0] for k, v in d.items()}), expected="identical digests")
-                res.violations.append((None, rec))
+                cc = next((c for c in catalog.family(g, tier, seed) if c["id"] == cid), None) if g in catalog.FAMILIES else None
+                sig = dict(category="unexpected-panic", shape=rules.D4_SHAPE) if (cc is not None and rules.list_exceeds_storage(cc)) else None
+                res.violations.append((sig, rec))
         cov["distinct_nontrivial"] = same
         cov["cases_compared_across_profiles"] = len(per)
+        if tier == "thorough":
+            # third evaluator: Miri on a reduced boundary workload; must agree with the native dbg run of the same workload
+            with build.Lock():
+                ws.generate(["mirif"])
+                ws.build_resilient(["mirif"], "dbg")
+            native = ws.run("mirif", "dbg", "C16", extra=["--miri-workload"])
+            nat = {cid: (dg, n) for cid, dg, n in native["stats"]["case_digests"]}
+            mreps = ws.miri_run("mirif", "C16")
+            mir = {}
+            m_ops = 0
+            for r in mreps:
+                if "miri_error" in r:
+                    rec = dict(kind="miri-error", what="Miri reported undefined behaviour / an unsupported operation while interpreting the generated code and glue", case="slice %d" % r["slice"],
+                               observed=r["miri_error"][-1500:], expected="clean interpretation", tier=tier, seed=seed, group="mirif", replay_kind="miri", profile="miri")
+                    res.violations.append((None, rec))
+                    continue
+                m_ops += r["stats"]["evaluations"]
+                for cid, dg, n in r["stats"]["case_digests"]:
+                    mir[cid] = (dg, n)
+                for v in r["stats"]["violations"]:
+                    res.violations.append((None, dict(v, tier=tier, seed=seed, group="mirif", replay_kind="runtime")))
+            agree = 0
+            for cid, d in sorted(mir.items()):
+                if nat.get(cid) == d:
+                    agree += 1
+                else:
+                    rec = dict(kind="profile-dependence", what="Miri and the native debug build observed different results for the same workload", case=cid, group="mirif", tier=tier, seed=seed,
+                               observed="miri %s vs native %s" % (d, nat.get(cid)), expected="identical digests", profile="miri,dbg", replay_kind="miri")
+                    res.violations.append((None, rec))
+            cov["miri"] = dict(cases=len(mir), operations=m_ops, cases_agreeing_with_native_dbg=agree, native_cases=len(nat), slices=len(mreps))
+            if len(mir) < max(1, len(nat) // 2):
+                raise Inconclusive("Miri interpreted only %d of %d sampled cases" % (len(mir), len(nat)))
+    by_id = {}
+    for g in groups:
+        for c in catalog.family(g, tier, seed):
+            by_id[c["id"]] = c
     for r in reports:
         for v in r["stats"]["violations"]:
             rec = dict(v, tier=tier, seed=seed, group=r["group"], replay_kind="runtime")
-            res.violations.append((None, rec))
+            sig = None
+            c = by_id.get(v.get("case"))
+            if prop == "C16" and c is not None and rules.list_exceeds_storage(c) and v.get("kind") == "unexpected-panic":
+                sig = dict(category="unexpected-panic", shape=rules.D4_SHAPE)
+            res.violations.append((sig, rec))
         if r["stats"]["violation_count"] > len(r["stats"]["violations"]):
             cov["violations_not_listed"] = cov.get("violations_not_listed", 0) + r["stats"]["violation_count"] - len(r["stats"]["violations"])
         if r.get("worker_threads_crashed"):
             raise Inconclusive("a worker thread of the runner crashed (%s/%s)" % (r["group"], r["profile"]))
     # coverage floor
     missing = [s for s in floor if not any(s in k for k in cov["shape_classes"])]
-    total_viol = sum(r["stats"]["violation_count"] for r in reports) + sum(1 for _, rec in res.violations if rec.get("replay_kind") == "digest")
+    total_viol = sum(r["stats"]["violation_count"] for r in reports) + sum(1 for _, rec in res.violations if rec.get("replay_kind") in ("digest", "miri"))
     write_evidence(prop, tier, seed, cov, time.time() - t0, total_viol, ASSUME_RUNTIME)
     if total_viol == 0:
         if cov["evaluations"] == 0 or cov["distinct_nontrivial"] < 2:
